@@ -352,6 +352,64 @@ func init() {
 				}
 			}
 		}
+		// the cluster handler at BOTH tiers (what app/memcached_cluster_proxy.go builds): clients that
+		// go away before the first byte, inside a header, inside a key and after a whole exchange; the
+		// process survives, the next client is served, the backend connections are closed
+		{
+			cfg := StackCfg{Orca: "l1only", Locked: "none", Bits: 0, L1: "cluster"}
+			st := GetStack(cfg)
+			st.Reset()
+			getFoo := Command{Kind: "get", Keys: []GetKey{{Key: []byte("foo"), Opaque: 1}}}.Encode("bin")
+			noop := Command{Kind: "noop", Opaque: 2}.Encode("bin")
+			for ci, cut := range []struct {
+				name string
+				data []byte
+				wait bool
+			}{{"before the first byte", nil, false}, {"inside a header", getFoo[:10], false}, {"inside a key", getFoo[:25], false}, {"after a complete no-op exchange", noop, true}, {"after a get", getFoo, true}} {
+				what := fmt.Sprintf("%s: a client disconnects %s", cfg, cut.name)
+				crumb(what, nil)
+				time.Sleep(10 * time.Millisecond)
+				base1, base2 := st.L1.OpenConns(), st.L2.OpenConns()
+				c, err := net.Dial("unix", st.MainSock)
+				must(err)
+				if len(cut.data) > 0 {
+					c.Write(cut.data)
+				}
+				if cut.wait {
+					c.SetReadDeadline(time.Now().Add(2 * time.Second))
+					buf := make([]byte, 256)
+					c.Read(buf)
+				} else {
+					time.Sleep(20 * time.Millisecond)
+				}
+				c.Close()
+				time.Sleep(30 * time.Millisecond)
+				rep.Evaluations++
+				distinct[fmt.Sprintf("cluster-disconnect/%d", ci)] = true
+				rep.Distribution["cluster-disconnects"]++
+				ok := true
+				cl := st.Dial("main", "bin")
+				out, e := cl.Feed(Command{Kind: "version", Opaque: 5}.Encode("bin"), 2*time.Second)
+				cl.Close()
+				if e != "eof" {
+					ok = false
+					rep.Violations = append(rep.Violations, Violation{What: fmt.Sprintf("%s: the next client's version request ended %q (%s)", what, e, canonN(64, out)), Signature: "cluster-disconnect-next-client",
+						Replay: map[string]interface{}{"stack": cfg.String(), "sent": canonN(64, cut.data)}})
+				}
+				deadline := time.Now().Add(2 * time.Second)
+				for time.Now().Before(deadline) && (st.L1.OpenConns() > base1 || st.L2.OpenConns() > base2) {
+					time.Sleep(5 * time.Millisecond)
+				}
+				if n1, n2 := st.L1.OpenConns(), st.L2.OpenConns(); n1 > base1 || n2 > base2 {
+					ok = false
+					rep.Violations = append(rep.Violations, Violation{What: fmt.Sprintf("%s: backend connections stay open afterwards: L1 %d (was %d), L2 %d (was %d)", what, n1, base1, n2, base2), Signature: "cluster-disconnect-leak",
+						Replay: map[string]interface{}{"stack": cfg.String(), "sent": canonN(64, cut.data)}})
+				}
+				if ok {
+					rep.Validated++
+				}
+			}
+		}
 		rep.Distinct = len(distinct)
 	}
 }
